@@ -166,7 +166,12 @@ TreeBad(T, v, tr) ==
 TreeFails(e) ==
   IF Verdict(e.ty, e.val) # "R" THEN {}
   ELSE IF e.tree.k = "none" THEN {}      \* no ConvertError at all: C01 / C04 report that
-  ELSE TreeBad(e.ty, e.val, e.tree)
+  ELSE (LET tb == TreeBad(e.ty, e.val, e.tree)
+            \* a structural child that must be rejected but for which the code, asked alone, reports nothing: the
+            \* verdict on that child differs (reported by the from_data clauses for it); its absence among the
+            \* children of this node follows from that and is not judged a second time
+            acceptedchild == \E j \in DOMAIN e.alone : e.alone[j].tree.k = "none" /\ Verdict(e.alone[j].ty, e.alone[j].val) = "R"
+        IN IF acceptedchild THEN tb \ {"children-keys"} ELSE tb)
        \cup (* each child equals the tree the element's own type reports for the sub-value alone *)
           (IF e.tree.k = "prod" /\ e.ty.k \notin {"union", "tagged", "ann", "sub", "tvar", "enum", "ndarray"}
            THEN LET mine == {e.tree.ch[i][2] : i \in {j \in DOMAIN e.tree.ch : e.tree.ch[j][2].k # "dup"}}
